@@ -265,8 +265,14 @@ def gen_client(rng, scr, sid, rev, chal, others):
                 msgs.append(rng.choice(VERSIONS_STD))
             else:
                 msgs.append(bytes(rng.randint(0, 255) for _ in range(rng.choice([1, 2, 12, 16, 17]))))
+    if rng.random() < 0.10 and len(msgs) > 1:        # the client gives up early
+        msgs = msgs[:rng.randrange(1, len(msgs))]
+        tags.append("gives-up")
     # re-chunk: merge neighbours / split messages
     stream = b"".join(msgs)
+    if "gives-up" in tags and rng.random() < 0.5 and len(stream) > 5:   # ... in the middle of a message
+        stream = stream[:rng.randrange(4, len(stream))]
+        msgs = [stream]
     c = rng.random()
     if c < 0.55:
         chunks = msgs
@@ -290,6 +296,9 @@ def gen_script(rng, weak, nconn=None):
     lines = [screen_line(i, s) for i, s in enumerate(scr)]
     n = nconn or rng.choice([1, 2, 2, 3, 3, 4, 4])
     chals, conns, tags = [], [], []
+    if rng.random() < 0.04:                       # the crypto back-end cannot provide DES at all
+        lines.append("cryptofail 1")
+        tags.append("cryptofail")
     for cid in range(n):
         ch = bytes(rng.randint(0, 255) for _ in range(16))
         if rng.random() < 0.05:
@@ -300,13 +309,14 @@ def gen_script(rng, weak, nconn=None):
         sid = rng.choice(pwsids) if (rng.random() < 0.6 or cid == 0) else rng.randrange(len(scr))
         rev = 1 if rng.random() < 0.15 else 0
         chunks, tg = gen_client(rng, scr, sid, rev, chals[cid], [c for j, c in enumerate(chals) if j != cid])
-        conns.append({"cid": cid, "sid": sid, "rev": rev, "chunks": chunks, "started": False})
+        conns.append({"cid": cid, "sid": sid, "rev": rev, "chunks": chunks, "started": False,
+                      "abrupt": rng.choice([1, 1, 2, 3]) if rng.random() < 0.10 else 0})
         tags += tg
         if rev:
             tags.append("reverse")
     pending = [c for c in conns]
     cur = None
-    slow = rng.random() < 0.03
+    slow = rng.random() < 0.05
     while pending:
         c = rng.choice(pending)
         if cur != chals[c["cid"]]:
@@ -323,7 +333,12 @@ def gen_script(rng, weak, nconn=None):
                 lines.append("conn %d %d %d %s" % (c["cid"], c["sid"], c["rev"], hx(first)))
         elif c["chunks"]:
             ch = c["chunks"].pop(0)
-            if rng.random() < 0.06 and c["chunks"]:
+            if c.get("abrupt") and len(c["chunks"]) < c["abrupt"]:
+                # the peer writes its last message(s) and closes at once: the server still finds the bytes
+                # but every write to the peer fails (rfbWriteExact < 0 branches)
+                lines.append("sendnp %d %s" % (c["cid"], hx(ch)))
+                tags.append("abrupt")
+            elif rng.random() < 0.06 and c["chunks"]:
                 lines.append("sendnp %d %s" % (c["cid"], hx(ch)))
                 tags.append("sendnp")
             else:
@@ -331,12 +346,12 @@ def gen_script(rng, weak, nconn=None):
         if not c["chunks"]:
             pending.remove(c)
             e = rng.random()
-            if e < 0.10:
+            if c.get("abrupt") or e < 0.10:
                 lines.append("close %d" % c["cid"])
                 tags.append("close")
-                if slow or rng.random() < 0.5:
+                for _ in range(rng.choice([0, 1, 2, 3, 3])):     # cheap: reads on a closed peer return at once
                     lines.append("proc %d" % c["cid"])
-            elif e < 0.12 and slow:
+            elif e < 0.5 and slow:
                 lines.append("proc %d" % c["cid"])
                 tags.append("proc-timeout")
         if rng.random() < 0.08:
@@ -449,8 +464,11 @@ def oracle(script, impl):
     if len(ops) != len(impl):
         return None, stats        # crash / early exit is reported by the caller
     scr, conns = {}, {}
+    cryptofail = False
     for op, ob in zip(ops, impl):
         t = op.split()
+        if t[0] == "cryptofail" and t[1] == "1":
+            cryptofail = True
         if t[0] == "screen" and ob == "ok":
             sid = int(t[1])
             if t[2] == "none":
@@ -517,8 +535,9 @@ def oracle(script, impl):
         else:
             stats["refused_pw"] += 1
         # completeness: a client that does everything right and is not disturbed must be admitted
+        # (not demanded when the script broke the crypto back-end: then nobody can be admitted)
         sent = c["sent"]
-        if (not c["disturbed"] and match is not None and w is not None and
+        if (not cryptofail and not c["disturbed"] and match is not None and w is not None and
                 ((w["form"] == "3.3" and sent[:12] == b"RFB 003.003\n" and len(sent) == 29) or
                  (w["form"] == "3.7" and sent[:12] in (b"RFB 003.007\n", b"RFB 003.008\n") and sent[12:13] == b"\2"
                   and len(sent) == 30))):
@@ -660,7 +679,7 @@ def run(ctx):
     else:
         for f in sorted(glob.glob(os.path.join(common.VERIF, "corpus", "C05", "*.ops"))):
             scripts.append((open(f).read(), ["corpus"], "corpus/" + os.path.basename(f)))
-        n = 700 if ctx.tier == "quick" else 6000
+        n = 700 if ctx.tier == "quick" else 16000
         for k in range(n):
             r = ctx.rng.random()
             if r < 0.12:
@@ -670,7 +689,13 @@ def run(ctx):
             else:
                 s, tg = gen_script(ctx.rng, weak)
             scripts.append((s, tg, "generated"))
-    results = common.pmap(lambda sc: common.compare_streams(ctx, sc[0], h, d, "auth.handshake", timeout=120), scripts)
+    # With the injected crypto failure rfbDecryptPasswdFromFile leaks its 9-byte buffer (vncauth.c: `return
+    # NULL` without free after a failed decrypt_rfbdes): a resource defect outside this property (reported
+    # in docs/C05.md), so LeakSanitizer is switched off for exactly those scripts.
+    noleak = {"ASAN_OPTIONS": "detect_leaks=0:abort_on_error=0:allocator_may_return_null=1"}
+    results = common.pmap(lambda sc: common.compare_streams(
+        ctx, sc[0], h, d, "auth.handshake", timeout=120,
+        env=noleak if "\ncryptofail 1\n" in sc[0] else None), scripts)
     evals = 0
     for (script, tags, what), res in zip(scripts, results):
         evals += 1
@@ -685,7 +710,7 @@ def run(ctx):
         if ctx.replay:
             dscripts = [scripts[0][0]]
         else:
-            per = 600 if ctx.tier == "quick" else 2500
+            per = 600 if ctx.tier == "quick" else 4000
             dscripts = [gen_des_script(ctx.rng, weak, per) for _ in range(2 if ctx.tier == "quick" else 4)]
         dres = common.pmap(lambda sc: common.compare_streams(ctx, sc, h, d, "des.backend", timeout=600), dscripts)
         for sc, (impl, model, f) in zip(dscripts, dres):
